@@ -5,7 +5,7 @@
    every run from utils.py (complex, cube_with_strides_center, join_complexes are
    executed as they are) and from the table construction in intvol.pyx. *)
 From Coq Require Import ZArith List Bool Lia ZifyBool.
-From NV.Generated Require Import IntvolTables.
+From NV.Generated Require Import IntvolTables RftFlags.
 Import ListNotations.
 Open Scope Z_scope.
 
@@ -176,6 +176,35 @@ Definition tet_v2_ok (o s : pt) (vol2 : Z) (tet : list pt) : Prop :=
   | [p0; p1; p2; p3] => tet_v2 (coord o s p0) (coord o s p1) (coord o s p2) (coord o s p3) = vol2
   | _ => False
   end.
+
+(* ------------------------------------------------------------------ rft.py: IntrinsicVolumes.__mul__ and the regions used by ECcone.__call__ *)
+(* IntrinsicVolumes.__mul__ (rft.py): mu[i] = sum_j self.mu[j] * other.mu[i-j], length la + lb - 1: the product of the
+   generating polynomials (hand model; compared exactly with the implementation on integer regions). *)
+Definition pscale (c : Z) (p : list Z) : list Z := map (Z.mul c) p.
+Fixpoint ppoly_add (p q : list Z) : list Z :=
+  match p, q with
+  | [], _ => q
+  | _, [] => p
+  | x :: p', y :: q' => (x + y) :: ppoly_add p' q'
+  end.
+Fixpoint iv_mul (a b : list Z) : list Z :=
+  match a with
+  | [] => []
+  | x :: a' => ppoly_add (pscale x b) (0 :: iv_mul a' b)
+  end.
+Fixpoint peval (p : list Z) (x : Z) : Z := match p with [] => 0 | c :: p' => c + x * peval p' x end.
+Record cone := mkcone { c_mu : list Z; c_search : list Z; c_product : list Z }.
+Definition call_regions (has_imul aliases aug : bool) (st : cone) (explicit : option (list Z)) : list Z * cone :=
+  let s := match explicit with Some s => s | None => c_search st end in
+  let s' := iv_mul s (c_product st) in
+  let mutates := match explicit with Some _ => false | None => aliases && aug && has_imul end in
+  (s', if mutates then mkcone (c_mu st) s' (c_product st) else st).
+(* the stored regions of an ECcone and what `__call__(x, search)` does with them: returns (effective search region, object
+   state afterwards).  `search = self.search; search *= self.product`: with an `__imul__` on IntrinsicVolumes the local name
+   aliases the stored region and the in-place product overwrites it; without, `*=` rebinds the local name.  The three flags are
+   read from the current rft.py (Generated/RftFlags.v). *)
+Definition call_src := call_regions src_iv_has_imul src_call_aliases_stored_search src_call_product_augassign.
+
 
 (* helpers for the harness *)
 Definition flat_table (ss : pt) (D : list (list pt)) : list (list Z) := map (map (flat ss)) D.
